@@ -193,6 +193,18 @@ REGISTRY["C19"] = {
     "assumptions": ["the output-type translation model covers scalars, Optional, List and named object types; input types and enums are observed by the engine"],
 }
 
+REGISTRY["C20"] = {
+    "engine": "engine_rec",
+    "theorems": [(A + "Rec", "Api.Rec.race_counterexample"), (A + "Rec", "Api.Rec.seq_ok"), (A + "Rec", "Api.Rec.C20_mutex"),
+                 (A + "Rec", "Api.Rec.lockInv_run"), (A + "Rec", "Api.Rec.C20_locked_racy_schedule_ok")],
+    "partial": "the interleaving model covers the recursion analysis (the shared recursion cache): a race counterexample for the unsynchronised protocol and "
+               "mutual exclusion of the locked protocol for every graph and schedule; DFS correctness of a sequential analysis, the lru_cache fills, RecMethod / "
+               "LazyConversion lazy initialisation and pre-emption inside C code are not in the model: they are exercised by schedule replay on real threads "
+               "and by a stress run",
+    "assumptions": ["the only shared-state accesses that matter for the modelled protocol are the reads / writes of the recursion cache, where the harness injects yields",
+                    "CPython's GIL makes dict and lru_cache operations atomic"],
+}
+
 LEVEL_NOTE = ("Trusted: Lean 4.33 kernel; axioms propext / Classical.choice / Quot.sound only (audited by #print axioms on every run, no sorry / "
               "native_decide / own axioms); the hand-written model, tied to /repo by the differential correspondence of this check (same cases to the "
               "real code and to the compiled Lean driver); tools/extract.py for the regenerated tables; CPython / typing / dataclasses. "
@@ -245,11 +257,15 @@ TEXT["C12"] = ("Kernel-checked statements of the commuting squares on a model of
 TEXT["C19"] = ("Kernel-checked theorems on the model of the Python-to-GraphQL type translation (non-null exactly when not Optional, at every list level; the named "
                "type is the class or scalar; distinct names stay distinct) and on the argument gate (resolver invoked iff every argument deserializes); "
                "tied by generated resolvers whose schemas are validated and executed with graphql-core and compared with serialize / deserialize.")
+TEXT["C20"] = ("Kernel-checked small-step interleaving semantics of the recursion analysis over a shared cache: a counterexample schedule for the protocol without "
+               "synchronisation (no axioms) and, for the locked protocol, mutual exclusion of the two analyses for every type graph and every schedule by "
+               "induction over the schedule; tied by replaying generated schedules on real threads through yield points injected at the shared cache, plus a "
+               "pre-emptive stress run compared with sequential execution. Partial: see level_note.")
 for k, v in TEXT.items():
     REGISTRY[k]["level_text"] = v
     REGISTRY[k]["level_note"] = LEVEL_NOTE
 
 # properties registered in MANIFEST.json (a property is claimed once its check is green on the unchanged tree)
-CLAIMED = ["C01", "C02", "C03", "C04", "C05", "C06", "C07", "C08", "C09", "C10", "C11", "C12", "C13", "C14", "C15", "C16", "C17", "C18", "C19"]
+CLAIMED = ["C01", "C02", "C03", "C04", "C05", "C06", "C07", "C08", "C09", "C10", "C11", "C12", "C13", "C14", "C15", "C16", "C17", "C18", "C19", "C20"]
 PENDING_REASON = "check under construction in this session (model and theorems exist, engine being registered); not yet claimed"
 NOT_CLAIMED = {f"C{i:02d}": PENDING_REASON for i in range(1, 21) if f"C{i:02d}" not in CLAIMED}
